@@ -64,6 +64,24 @@ WEIGHTS = {1: [1.0], 2: [2.0 / 3, 1.0 / 3], 3: [4.0 / 7, 2.0 / 7, 1.0 / 7]}
 KIJ_TABLE = [("H2O(g)", "CO2(g)", 0.25), ("CH4(g)", "CO2(g)", 0.1), ("O2(g)", "N2(g)", -0.05), ("H2S(g)", "CH4(g)", 0.08),
              ("NH3(g)", "H2O(g)", -0.25), ("H2O(g)", "H2S(g)", 0.19), ("H2O(g)", "CH4(g)", 0.49), ("H2O(g)", "N2(g)", 0.49)]
 
+# ---- history dimension "redef": PHASES redefines a gas that the instance has already used -------------------------------
+# critical constants (T_c K, P_c atm, acentric factor) of the redefinition sets; "alt" = another literature set (the
+# reference equations of state: Span & Wagner 1996, Setzmann & Wagner 1991, Span et al. 2000, Schmidt & Wagner 1985,
+# Lemmon & Span 2006, IAPWS-95, Tillner-Roth et al. 1993; P_c converted from MPa), "fit" = a clearly different "fitted"
+# set (about +2 % T_c, +4 % P_c, +0.035 omega).  The values only have to be *different* from the database's and known to
+# the oracle: the oracle evaluates the equation of state with whatever constants the PHASES block gives.
+REDEF_SETS = {
+    "alt": {"CO2(g)": (304.1282, 72.808, 0.22394), "CH4(g)": (190.564, 45.3906, 0.01142), "N2(g)": (126.192, 33.5139, 0.0372),
+            "O2(g)": (154.581, 49.7705, 0.0222), "H2S(g)": (373.1, 88.823, 0.1005), "H2O(g)": (647.096, 217.755, 0.3443),
+            "NH3(g)": (405.4, 111.848, 0.25601)},
+    "fit": {"CO2(g)": (310.0, 76.0, 0.26), "CH4(g)": (194.4, 47.2, 0.043), "N2(g)": (128.7, 34.8, 0.074),
+            "O2(g)": (157.7, 51.8, 0.056), "H2S(g)": (380.7, 91.7, 0.135), "H2O(g)": (660.2, 226.3, 0.379),
+            "NH3(g)": (413.7, 115.8, 0.285)},
+    "ideal": None,       # PHASES entry without -T_c / -P_c / -Omega: the gas becomes an ideal gas
+    "crit": "db",        # (database variant "ideal" only) PHASES entry that GIVES the gas the constants of phreeqc.dat
+}
+AFTER = " after PHASES redefinition"      # part of every fingerprint raised in the redefinition history
+
 TOL_EOS = 1e-4        # statement: P, V, T, n satisfy the equation of state, relative 1e-4
 TOL_PHI = 1e-6        # statement: fugacity coefficient matches the equation of state, 1e-6
 TOL_ID = 1e-4         # identities without a tolerance in the statement (x_i P, sum p_i = P, phi_i p_i = 10^SI_i): see run()
@@ -90,6 +108,61 @@ def db(variant):
                 raise RuntimeError("gas %s not found in PHASES of %s" % (g, DBFILE))
         _db[variant] = (line, gases, kij)
     return _db[variant]
+
+
+_body = {}
+
+
+def phase_body(name):
+    """PHASES entry of the gas as in phreeqc.dat, without critical constants (logical lines)."""
+    if name not in _body:
+        _body[name] = G.phase_definition(open(DBFILE, encoding="latin-1").read(), name)
+    return _body[name]
+
+
+def redefined(case):
+    """[(gas, (T_c, P_c, omega) or None)] for the gases the PHASES block of a history-'redef' case redefines."""
+    names = case["gases"] if case.get("which", "all") == "all" else case["gases"][:1]
+    table = REDEF_SETS[case["redef"]]
+    if table == "db":
+        dbg = db("pr")[1]
+        return [(g, (dbg[g]["tc"], dbg[g]["pc"], dbg[g]["omega"])) for g in names]
+    return [(g, table[g] if table else None) for g in names]
+
+
+def phases_block(case):
+    lines = ["PHASES"]
+    for g, crit in redefined(case):
+        lines += phase_body(g)
+        if crit:
+            lines += [" -T_c %s" % fmt(crit[0]), " -P_c %s" % fmt(crit[1]), " -Omega %s" % fmt(crit[2])]
+    return "\n".join(lines) + "\n"
+
+
+def gases_in_force(case, gases_db):
+    """The gas table the oracle has to use for the judged simulation: the database's, overlaid with the redefinition."""
+    if case.get("hist") != "redef":
+        return gases_db
+    out = dict(gases_db)
+    for g, crit in redefined(case):
+        tc, pc, w = crit if crit else (0.0, 0.0, 0.0)
+        out[g] = dict(gases_db[g], tc=float(tc), pc=float(pc), omega=float(w))
+    return out
+
+
+def redef_texts(case):
+    """(RunString texts of the instance with history, RunString texts of the fresh reference instance).
+    how = 'sim':  ONE RunString: simulation 1 = the calculation with the database's gas (reactants numbered 9, nothing
+                  punched), simulation 2 = PHASES redefinition + the judged calculation;
+    how = 'call': THREE RunString calls: the calculation with the database's gas; PHASES redefinition alone; the judged
+                  calculation.
+    The reference instance gets the same texts without the first calculation."""
+    first = build_sim(dict(case, T=T_WARM if case.get("pre") == "warm" else case["T"]), 9, False)
+    ph = phases_block(case)
+    judged = build_sim(case, 1, True)
+    if case["how"] == "sim":
+        return [first + ph + judged], [ph + judged]
+    return [first, ph + "END\n", judged], [ph + "END\n", judged]
 
 
 # ------------------------------------------------------------------------------------------------ input text
@@ -217,9 +290,11 @@ def cell(row, k):
 
 
 class Judge:
-    def __init__(self, case, gases_db, kij):
+    def __init__(self, case, gases_db, kij, gases_before=None):
         self.case = case
-        self.gdb = gases_db
+        self.gdb = gases_db          # gas constants in force in the judged simulation
+        self.gdb_before = gases_before   # (history 'redef') the constants the instance used before the redefinition
+        self.after = AFTER if case.get("hist") == "redef" else ""
         self.kij = kij
         self.problems = []
         self.diags = []
@@ -267,7 +342,7 @@ class Judge:
             # PR_P / PR_PHI are documented for Peng-Robinson gases only; the documented partial pressure of an ideal gas
             # component is 10^SI (manual: "for a gas, SI = log10(fugacity)", example 7 uses 10^SI / SR)
             p = list(sr)
-        tag = "%s eos=%s type=%s" % (where, eos, c["type"])
+        tag = "%s eos=%s type=%s%s" % (where, eos, c["type"], self.after)
         nsum = sum(n)
         present = ntot > 0 and P > 0 and nsum > 0
         if not present:
@@ -393,7 +468,7 @@ class Judge:
         if nsum <= 0:
             return
         eos = self.eos_kind()
-        tag = "initial-definition eos=%s type=%s" % (eos, c["type"])
+        tag = "initial-definition eos=%s type=%s%s" % (eos, c["type"], self.after)
         x = [v / nsum for v in n]
         for k, g in enumerate(names):
             r = G.rel(x[k], WEIGHTS[len(names)][k])
@@ -430,7 +505,7 @@ class Judge:
             if any(not isinstance(v, (int, float)) or v != v for v in (amount, p, phi, si, T)):
                 self.bad("non-numeric read-out equi", "row of %r has a non-numeric cell: %r" % (c, row))
                 return
-            tag = "equilibrium_phases eos=%s" % eos
+            tag = "equilibrium_phases eos=%s%s" % (eos, self.after)
             if amount <= 0:
                 self.flags.add("equi:exhausted")
                 continue
